@@ -91,7 +91,24 @@ def entry_points():
         n = len(run_jaqal_circuit(c).readouts)
         return parse_jaqal_output_list(c, [0] * n)
 
+    def gen_expanded(c):
+        # text generation of a RESULT of a pass (where a block may sit directly in a block of its kind): generating
+        # twice gives the same text and leaves the circuit it was given alone
+        e = expand_subcircuits(c)
+        s0 = snapshot(e)
+        t1 = generate_jaqal_program(e)
+        t2 = generate_jaqal_program(e)
+        if t1 != t2 or snapshot(e) != s0:
+            return ("VIOLATION", "generate_jaqal_program modified the circuit it was given (the result of expand_subcircuits): a second generation differs")
+        m = expand_macros(c)
+        s1 = snapshot(m)
+        u1 = generate_jaqal_program(m)
+        if generate_jaqal_program(m) != u1 or snapshot(m) != s1:
+            return ("VIOLATION", "generate_jaqal_program modified the circuit it was given (the result of expand_macros)")
+        return ("val", t1)
+
     eps = {
+        "generate_expanded": gen_expanded,
         "expand_macros": lambda c: expand_macros(c),
         "fill_in_let": lambda c: fill_in_let(c, {"k1": 2, "ang": 2.0} if "k1" in c.constants else None),
         "fill_in_map": lambda c: fill_in_map(fill_in_let(expand_macros(c))),
@@ -108,7 +125,7 @@ def entry_points():
 
 def cases(tier, rng):
     count = 40 if tier == "quick" else 600
-    names = ["expand_macros", "fill_in_let", "fill_in_map", "expand_subcircuits", "expand_subcircuits_user", "normalize", "used", "generate", "run", "outputs"]
+    names = ["generate_expanded", "expand_macros", "fill_in_let", "fill_in_map", "expand_subcircuits", "expand_subcircuits_user", "normalize", "used", "generate", "run", "outputs"]
     for i in range(count):
         n = rng.choice([2, 3])
         g = ref.Gen(rng, n=n, use_sub=True, bracket=True, max_depth=2, gates=("X", "H", "Rx", "CX"), use_par=(i % 2 == 0))
@@ -116,6 +133,11 @@ def cases(tier, rng):
         p.pop("usepulses", None)
         # macro calls with integral floats / ints as numeric arguments
         if i % 2 == 0:
+            # a macro that hands its own parameter on to another macro (analyses that bind arguments must not write the
+            # binding into the shared statement)
+            p["macros"].append(("ufl", ["x"], ("seq", [("gate", "X", [("id", "x")])])))
+            p["macros"].append(("uou", ["b"], ("seq", [("gate", "ufl", [("id", "b")]), ("gate", "H", [("id", "b")])])))
+            p["body"].append(("sub", None, [("gate", "uou", [("q", "q", n - 1)]), ("gate", "uou", [("q", "q", 0)])]))
             p["macros"].append(("rot", ["x", "t"], ("seq", [("gate", "Rx", [("id", "x"), ("id", "t")])])))
             p["body"].insert(0, ("sub", None, [("gate", "rot", [("q", "q", 0), ("num", rng.choice([2.0, 1.0, 0.5, 3]))])]))
         if n == 3 and i % 2 == 1:
@@ -164,7 +186,10 @@ def check(pl):
     for name in seq:
         before = snapshot(shared)
         try:
-            r_shared = view(eps[name](shared))
+            raw = eps[name](shared)
+            if isinstance(raw, tuple) and raw and raw[0] == "VIOLATION":
+                return raw[1]
+            r_shared = view(raw)
         except JaqalError as ex:
             r_shared = ("error", "JaqalError")
         after = snapshot(shared)
@@ -173,7 +198,8 @@ def check(pl):
             return f"{name} modified its input circuit (changed: {diff}) in sequence {seq}"
         fresh = build(text, table)
         try:
-            r_fresh = view(eps[name](fresh))
+            rawf = eps[name](fresh)
+            r_fresh = view(rawf) if not (isinstance(rawf, tuple) and rawf and rawf[0] == "VIOLATION") else rawf
         except JaqalError:
             r_fresh = ("error", "JaqalError")
         if r_shared != r_fresh:
